@@ -58,6 +58,7 @@ def make_ops(thorough):
         C("c2", "V", valid_units=("1000ft3",)),  # legacy spelling
         C("c2", "L", default_unit="cm"),
         C("c2", "L", default_unit="s"),  # outside the type
+        C("c2", "L", default_unit="1000ft3"),  # legacy spelling of a unit outside the type
         C("c2", "L", override=True, min_value=0.0, max_value=10.0, default_value=10.0),  # default at the inclusive maximum
         C("c2", "L", max_value=10.0),  # only a maximum: the default value is taken from it
         C("c2", "L", min_value=5.0, max_value=5.0),  # one admissible amount
@@ -81,6 +82,7 @@ def make_ops(thorough):
             C("T", "T", valid_units=("min",)),
             U("V", "MMcf"),
             C("c3", "V", default_unit="M(ft3)"),
+            C("c2", "L", valid_units=("cm", "1000ft3")),  # legacy spelling of a unit outside the type among the valid units
         ]
     # not a registration: the application USES what is registered (builds quantities and Scalars for
     # every category and unit, without any clean-up), so that later registrations meet warm caches.
